@@ -44,6 +44,7 @@ type Violation struct {
 	// just before this case (most recent last). A violation that does not
 	// reproduce alone is replayed after them: the library may carry state from
 	// one call to the next (a cache, a pool, a hoisted buffer).
+	Tier           string  `json:"tier,omitempty"` // the tier whose enumeration the case index refers to
 	Preceding      []int64 `json:"preceding_cases,omitempty"`
 	NeedsPreceding bool    `json:"needs_preceding_cases,omitempty"`
 }
@@ -229,7 +230,7 @@ func (w *W) Violate(sig, human, observed, allowed string) {
 	if w.sigN[sig] > 2 || len(w.viol) >= 400 {
 		return
 	}
-	v := Violation{Property: w.c.Check.ID, Sig: sig, Space: w.space, Case: cs, Human: human, Observed: observed, Allowed: allowed}
+	v := Violation{Property: w.c.Check.ID, Sig: sig, Space: w.space, Case: cs, Human: human, Observed: observed, Allowed: allowed, Tier: w.c.Tier}
 	if w.curCase == nil && len(w.hist) > 1 {
 		v.Preceding = append([]int64{}, w.hist[:len(w.hist)-1]...)
 	}
